@@ -71,6 +71,8 @@ int Var::div(Var &var_d, Var &var_s)
 {
   if (var_d.type == VAR_INT && var_s.type == VAR_INT)
   {
+    if (var_s.value_int == 0) { return -1; }
+
     value_int = var_d.value_int / var_s.value_int;
   }
     else
@@ -86,6 +88,8 @@ int Var::mod(Var &var_d, Var &var_s)
 {
   var_d.to_int();
   var_s.to_int();
+
+  if (var_s.value_int == 0) { return -1; }
 
   value_int = var_d.value_int % var_s.value_int;
 
